@@ -447,11 +447,27 @@ func (d *Datastore) TransactionSet(ctx context.Context, transactionId string, tr
 		return nil, err
 	}
 
-	// Mark the transaction as successfully committed
-	transactionGuard.Success()
+	// Only a transaction that was applied stays registered, until it is confirmed,
+	// cancelled or rolled back by its timer. A dry run or a transaction rejected by
+	// validation changed nothing and has no timer running: it is to be released by
+	// the guard, otherwise it would block the datastore forever.
+	if !dryRun && !transactionResponseHasErrors(response) {
+		// Mark the transaction as successfully committed
+		transactionGuard.Success()
+	}
 
 	log.Infof("Transaction: %s - transacted", transactionId)
 	return response, err
+}
+
+// transactionResponseHasErrors returns true if any intent of the response reports validation errors
+func transactionResponseHasErrors(rsp *sdcpb.TransactionSetResponse) bool {
+	for _, intent := range rsp.GetIntents() {
+		if len(intent.GetErrors()) > 0 {
+			return true
+		}
+	}
+	return false
 }
 
 func cacheUpdateToSdcpbUpdate(lvs tree.LeafVariantSlice) ([]*sdcpb.Update, error) {
